@@ -68,8 +68,8 @@ inline std::size_t pick_len(Rng& r, int depth, std::size_t elem_cost) {
   if (depth >= 2 || elem_cost > 16) {
     // rarely a long leaf (string, byte vector) deep inside: sizes of enclosing table entries, BoundedWriter
     // budgets and length classes of nested containers then cross the 128 / 256 boundaries too
-    if (elem_cost <= 2 && k >= 96) return (k == 96 ? 124 : k == 97 ? 126 : k == 98 ? 254 : 127) + r.below(4);
-    if (elem_cost <= 8 && k >= 97) return (k == 97 ? 15 : k == 98 ? 31 : 63) + r.below(3);   // byte length around 128 / 256
+    if (elem_cost <= 2 && k >= 92) return (k % 4 == 0 ? 124 : k % 4 == 1 ? 126 : k % 4 == 2 ? 254 : 127) + r.below(4);
+    if (elem_cost <= 8 && k >= 92) return (k % 3 == 0 ? 15 : k % 3 == 1 ? 31 : 63) + r.below(3);   // byte length around 128 / 256
     return r.below(6);
   }
   if (k < 85) return 126 + r.below(4);          // 126..129 : fixint / U8 boundary
